@@ -34,6 +34,7 @@ const (
 	uBase  = 100 // users 100..
 	cOK    = 200 // contract whose code is STOP
 	cBad   = 201 // contract that always reverts
+	tokAcct = 210 // 210+t: the ERC-20 contract of token t (t >= 1) as an account
 )
 
 func chainID(name string) int {
@@ -254,6 +255,12 @@ func NewWorld(c *lib.Chain, sp Spec, hseed int64) *World {
 	c.InstallCode(c.Ctx, badAddr, badCode)
 	w.addr[cOK], w.addr[cBad] = okAddr.Bytes(), badAddr.Bytes()
 	w.Accts = append(w.Accts, cOK, cBad)
+	for t, tk := range w.Toks { // the pair contracts themselves can be named as receivers (not blocked addresses)
+		if t > 0 {
+			w.addr[tokAcct+t] = tk.ERC20.Bytes()
+			w.Accts = append(w.Accts, tokAcct+t)
+		}
+	}
 	for _, ch := range w.Chains {
 		w.addr[ch] = lib.ModuleAcc(chainName(ch))
 		w.Accts = append(w.Accts, ch)
